@@ -1,5 +1,6 @@
 #!/usr/bin/env python3
-"""Run every kept seeded change against its property's check; prints one line each and a summary."""
+"""Run every kept seeded change against its property's check; prints one line each and a summary.
+Optional arguments: property ids to restrict the run to (e.g. `seeded_all.py C03 C14`)."""
 import glob
 import json
 import os
@@ -11,13 +12,16 @@ rows = []
 for d in sorted(glob.glob(os.path.join(ROOT, "seeded", "C*"))):
     meta = json.load(open(os.path.join(d, "meta.json")))
     prop = os.path.basename(d)[:3]
+    if len(sys.argv) > 1 and prop not in sys.argv[1:]:
+        continue
     if str(meta.get("assessment", "")).lower().startswith("not counted"):
         print("NOT-COUNTED " + os.path.basename(d), meta["assessment"][:120], flush=True)
         continue
+    check_with = meta.get("check_with", prop)      # a change to one property's code may be decided by another property's check
     env = dict(os.environ)
     if "base_rev" in meta:
         env["SEED_BASE_REV"] = meta["base_rev"].split()[0]
-    r = subprocess.run([sys.executable, os.path.join(ROOT, "tools", "seeded.py"), "check", d, prop], env=env,
+    r = subprocess.run([sys.executable, os.path.join(ROOT, "tools", "seeded.py"), "check", d, check_with], env=env,
                        capture_output=True, text=True)
     first = [ln.strip() for ln in r.stdout.splitlines() if ln.strip().startswith("[")][:1]
     ok = r.returncode == 0
